@@ -285,14 +285,12 @@ int accept(ACCEPTPARAMS) {
     fibershim_accept = (acceptFnType)dlsym(RTLD_NEXT, "accept");
   }
 
-  int sock = fibershim_accept(sockfd, addr, addrlen);
-  if (sock < 0 && (errno == EWOULDBLOCK || errno == EAGAIN) &&
-      should_block(sockfd)) {
+  int sock;
+  while ((sock = fibershim_accept(sockfd, addr, addrlen)) < 0 &&
+         (errno == EWOULDBLOCK || errno == EAGAIN) && should_block(sockfd)) {
     if (!fiber_wait_for_event(sockfd, FIBER_POLL_IN)) {
       return -1;
     }
-
-    sock = fibershim_accept(sockfd, addr, addrlen);
   }
 
   if (sock > 0) {
